@@ -53,6 +53,15 @@ def run(ctx):
             if not any(b_ in reach and ep.dominates(e[1], b_) for b_ in dcalls):
                 ok = False
         r1.check(ok, "err=>disconnect", "every handle() error result leads to stats.disconnect()", "an error result of handle() is not followed by stats.disconnect()")
+        # ... whoever the client is: from each handle() call, every way to the end of client_entrypoint either tests the result and finds it Ok, or
+        # passes stats.disconnect() - the safety net is not conditional on anything else (admin clients are registered like the others, and handle()
+        # leaves with `?` on most of their errors too)
+        rets_ep = [bb for bb, blk in enumerate(ep.blocks) if blk["term"]["k"] == "return"]
+        for k_, c in enumerate(hc):
+            wit = ep.uncrossed_path([c.target], rets_ep, edges=set(Fa), blocks=dcalls) if c.target is not None else None
+            r1.check(wit is None, "err=>disconnect:every-client#%d" % k_, "after handle() #%d every way out tests the result (Ok) or passes stats.disconnect()" % k_,
+                     "after handle() returned, client_entrypoint can end without testing the result or without stats.disconnect() - e.g. for an admin client: an admin session that ends with an error "
+                     "(socket closed without Terminate, a Parse from a driver) stays in SHOW CLIENTS for ever and free_clients grows with each one", c.where(), wit and ep.describe_path(wit))
         # the result tested is handle's
         src_ok = all("pgcat::client::Client::handle" in {o.call.name for o in origins(ep, c.args[0], taint=True) if o.kind == "call"} for c in sites)
         r1.check(src_ok, "is_err-of-handle", "the tested result is the one returned by handle()", "is_err() is applied to something else than handle()'s result")
